@@ -12,7 +12,7 @@ Open Scope N_scope.
 (* ---- values ------------------------------------------------------------------------------------- *)
 Section Values.
 Variable fmtv : list N -> list N -> list N.
-Variable fmt_diff : list N -> list N -> list N.
+Variable fmt_diff : list N -> list N -> list N -> list N.
 Variable fmt_pi : list N -> list N.
 Variable fstr : list N -> list N.
 Variable fzero : list N -> bool.
@@ -41,16 +41,16 @@ Qed.
 
 (* what update_start_stop_step computes is a text (or None for STEP / an empty index), never a
    number: re-reading it is the reader's business, re-writing it prints the same characters *)
-Lemma refreshed_is_text c : exists s, fmt_index_cell fmtv c = VStr s.
+Lemma refreshed_is_text f c : exists s, fmt_index_cell fmtv f c = VStr s.
 Proof. destruct c; eexists; reflexivity. Qed.
 
-Lemma strt_of_shape idx : strt_of fmtv idx = VNone \/ exists s, strt_of fmtv idx = VStr s.
+Lemma strt_of_shape f idx : strt_of fmtv f idx = VNone \/ exists s, strt_of fmtv f idx = VStr s.
 Proof. unfold strt_of. destruct idx as [|c ?]; [left; reflexivity|right; apply refreshed_is_text]. Qed.
 
-Lemma stop_of_shape idx : stop_of fmtv idx = VNone \/ exists s, stop_of fmtv idx = VStr s.
+Lemma stop_of_shape f idx : stop_of fmtv f idx = VNone \/ exists s, stop_of fmtv f idx = VStr s.
 Proof. unfold stop_of. destruct (rev idx) as [|c ?]; [left; reflexivity|right; apply refreshed_is_text]. Qed.
 
-Lemma step_of_shape idx : step_of fmtv fmt_diff idx = VNone \/ exists s, step_of fmtv fmt_diff idx = VStr s.
+Lemma step_of_shape f idx : step_of fmtv fmt_diff f idx = VNone \/ exists s, step_of fmtv fmt_diff f idx = VStr s.
 Proof.
   unfold step_of. destruct idx as [|[a| |] [|[b| |] ?]]; try (left; reflexivity).
   match goal with |- (if ?c then _ else _) = _ \/ _ => destruct c end;
